@@ -253,7 +253,7 @@ fn port_events(cx: &mut Ctx, c: &Call, s: &str) {
     cx.log_text(c, s, outcome(&r), "na", &msg_of(&r), json!({"res": res}));
     if let Ok(Ok(range)) = r {
         let (single, lo, hi) = match range { PortRange::Single(p) => (true, p, p), PortRange::Range(a, b) => (false, a, b) };
-        let span = hi as u32 - lo as u32;
+        let span = (hi as u32).saturating_sub(lo as u32);
         let mut counts: Vec<u32> = vec![0, 1, 2, span, span + 1, span + 2, 65535];
         counts.retain(|x| *x <= 65535);
         counts.sort();
